@@ -593,6 +593,20 @@ func (e *e2eEnv) run(c e2eCase) {
 				os.WriteFile(p, []byte(sb.String()), 0o644)
 				args = append(args, "-f", p)
 			}
+			// a subnet argument next to the list (it selects the interface; the targets are still the list's, and the
+			// exclusions still apply to them — also when they do not touch that subnet)
+			if c.excl != "none" && !c.tun && ci%2 == 0 {
+				if c.listen {
+					args = append(args, "127.0.0.0/30")
+				} else {
+					args = append(args, "10.0.0.0/28")
+				}
+				r.Count("file+subnet+exclude")
+			}
+		}
+		if c.listen && ci%3 == 0 {
+			args = append(args, "-w", "1") // a single worker probes them all
+			r.Count("workers:1")
 		}
 		if c.ports != "-" {
 			all := strings.Split(c.ports, ",")
